@@ -141,6 +141,8 @@ def cases(tier):
     for T, Q in types:
         cs += type_cases(T, Q)
     cs += canaries()
+    from rules import narrow
+    cs += narrow.cases(cs, 'C12')
     return cs
 
 
